@@ -270,6 +270,20 @@ def legacy_tables(run):
             rows.append(("tick(1, %s) and tick(2, %s)" % (a, b), [1, 2] if ta else [1]))
             rows.append(("tick(1, %s) or tick(2, %s)" % (a, b), [1] if ta else [1, 2]))
         rows.append(("coalesce(tick(1, null), tick(2, 4), tick(3, 5))", [1, 2]))
+        # legacy `collection[expression]`: an index on sequences (evaluated once), a per-element filter on everything else
+        # (evaluated once per element CONSUMED, never without an element)
+        data_rows = [("$.where(true)[tick(1, true)]", [1, 1, 1]), ("$.select($)[tick(1, $ != 2)]", [1, 1, 1]), ("$[tick(1, 0)]", [1]),
+                     ("$.select($)[tick(1, $ != 2)].take(0)", []), ("$.where($ > 1)[tick(1, $ > 2)].first()", [1, 1]),
+                     ("set(1, 2)[tick(1, $ > 1)]", [1, 1]), ("$.select($)[tick(1, true)].first()", [1])]
+        for text, want in data_rows:
+            log, r = go(text, [1, 2, 3])
+            run.case(("legacy-indexer", old, text), nontrivial=True)
+            run.count("legacy_row")
+            if log != want or r[0] == "err":
+                run.fail("violation", "legacy mode: a lazy form evaluated operands other than the ones it selects",
+                         {"program": text, "grammar": "0.2" if old else "1.x", "observed_log": log, "required_log": want,
+                          "observed": repr(r), "required": "legacy row"})
+                return
         for text, want in rows:
             log, r = go(text)
             run.case(("legacy", old, text), nontrivial=True)
@@ -341,6 +355,12 @@ def partial_consumption_rows(run):
             ("[1, 2, 3].all(tick(1, $ > 1))", [1]),
             ("[1, 2, 3].any(tick(1, $ > 1))", [1, 1]),
             ("[1, 2, 3].defaultIfEmpty(tick(1, [9])).first()", [1]),
+            # a sort is lazy too: feeding it to another lazy operator evaluates no key until something is consumed
+            ("let(x => [3, 1, 2].orderBy(tick(1, $)).select($ + 1)) -> 1", []),
+            ("[3, 1, 2].orderBy(tick(1, $)).where($ > 0).take(0).toList()", []),
+            ("[3, 1, 2].orderBy(tick(1, $)).skip(1).take(0).toList()", []),
+            ("[3, 1, 2].orderBy(tick(1, $)).zip([1, 2, 3]).take(0).toList()", []),
+            ("[[3, 1, 2].orderByDescending(tick(1, $)).select($), 5][1]", []),
             ("let(x => [1, 2, 3].select(tick(1, $))) -> 2", []),
             ("[[1, 2, 3].select(tick(1, $)), 5][1]", [])]
     for text, want in rows:
